@@ -83,7 +83,7 @@ def main():
                         rp = concrete[0].split('replay=')[1].split()[0]
                         try:
                             j = json.load(open(rp))
-                            detail = ' ' + (' '.join(j.get('ops', [])[:12]) or j.get('schedule', '') or '')[:110]
+                            detail = ' ' + (' '.join(j.get('ops', [])[:12]) or ('cfg ' + j.get('cfg', '') + ' | ' + ' '.join(j.get('schedule', []))))[:110]
                         except Exception:
                             pass
                     print(f'{name:36s} {pid} rc={r.returncode} {verdict:18s} [{exp}]{detail}', flush=True)
